@@ -10,7 +10,8 @@ LEVEL = 'exploration'
 X64 = True
 RULE = ('scenes: a ground plane (axis-aligned or tilted) + 2-3 free bodies '
         'with sphere/capsule geoms in every type assignment (plus a body that '
-        'carries two geoms); per scene 2^3 parameter sets (local offset, local '
+        'carries two geoms, and a capsule written as a fromto geom inside a '
+        'rotated jointless child body, which the loader fuses); per scene 2^3 parameter sets (local offset, local '
         'orientation, sizes) with distinct per-geom elasticities; link poses: '
         '(24 cube rotations + generic)^2 orientations x 5 designed separations '
         '{-0.3,-0.05,0,0.05,0.7} x {axis, generic} directions (+ third body '
@@ -73,7 +74,8 @@ def scenes(tier):
     three = ['SCC', 'CSS', 'CCS']
   out = [(s, False) for s in two + three]
   out.append(('SC', True))   # first body carries an extra sphere geom
-  return out
+  out.append(('SC', 'fused'))  # capsule given by fromto inside a rotated
+  return out                   # jointless child body (loader fuses it)
 
 
 def build(sc, multi, pset, seed, tilt):
@@ -92,7 +94,31 @@ def build(sc, multi, pset, seed, tilt):
     g['quat'] = list(map(float, scope.generic_quat(rng))) if pset[1] else None
     geoms = [g]
     el.append(float(rng.choice([0.0, 0.3, 0.9]) + 0.01 * (i + 1)))
-    if multi and i == 0:
+    if multi == 'fused' and c == 'C':
+      # same capsule, but written as <body quat pos><geom fromto/></body>
+      bq = scope.generic_quat(rng)
+      bp = rng.uniform(-0.2, 0.2, 3)
+      a, b = rng.uniform(-0.2, 0.2, 3), rng.uniform(-0.2, 0.2, 3)
+      Rb = _rot(bq)
+      A, B = bp + Rb @ a, bp + Rb @ b
+      ax = (B - A) / np.linalg.norm(B - A)
+      lq = np.concatenate([[1 + ax[2]], np.cross([0, 0, 1.0], ax)])
+      lq /= np.linalg.norm(lq)
+      g = dict(type='capsule', collide=True, size=[r, float(np.linalg.norm(
+          B - A) / 2)], pos=list(map(float, (A + B) / 2)),
+               quat=list(map(float, lq)))
+      geoms = [g]
+      l['extra_xml'] = [
+          '<body name="fz%d" pos="%s" quat="%s"><geom name="gfz%d" '
+          'type="capsule" size="%r" fromto="%s %s"/></body>' % (
+              i, scope._fmt(bp), scope._fmt(bq), i, r, scope._fmt(a),
+              scope._fmt(b))]
+      l['geoms_ref'] = geoms
+      l['geoms'] = []
+      del l['geom']
+      links.append(l)
+      continue
+    if multi is True and i == 0:
       g2 = dict(type='sphere', size=[0.07], collide=True,
                 pos=[0.3, -0.2, 0.1], quat=None)
       geoms.insert(0, g2)
@@ -115,7 +141,7 @@ def _geoms_of(spec):
     out.append((-1, g['type'], g['size'], np.array(g['pos'] or [0, 0, 0.]),
                 np.array(g['quat'] or [1, 0, 0, 0.])))
   for i, l in enumerate(spec['links']):
-    for g in l['geoms']:
+    for g in l.get('geoms_ref', l['geoms']):
       out.append((i, g['type'], g['size'], np.array(g['pos'] or [0, 0, 0.]),
                   np.array(g['quat'] or [1, 0, 0, 0.])))
   return out
@@ -132,6 +158,8 @@ def closed_form(spec, xpos, xquat):
       P, Q = xpos[b], xquat[b]
     R = _rot(Q)
     W.append((typ, size, P + R @ lp, R @ _rot(lq)))
+  # a fused from-to geom went through the loader's six-decimal printing
+  loose = 5e-6 if any('geoms_ref' in l for l in spec['links']) else 0.0
   out = {}
   for i, j in itertools.combinations(range(len(G)), 2):
     if G[i][0] == G[j][0]:
@@ -142,11 +170,11 @@ def closed_form(spec, xpos, xquat):
     if ti == 'plane':
       n = Ri[:, 2]
       if tj == 'sphere':
-        rows.append(((cj - ci) @ n - sj[0], n, TOL_D))
+        rows.append(((cj - ci) @ n - sj[0], n, max(TOL_D, loose)))
       else:
         ax = Rj[:, 2] * sj[1]
         for e in (cj + ax, cj - ax):
-          rows.append(((e - ci) @ n - sj[0], n, TOL_D))
+          rows.append(((e - ci) @ n - sj[0], n, max(TOL_D, loose)))
     else:
       if ti == 'sphere' and tj == 'sphere':
         p1, p2 = ci, cj
@@ -167,20 +195,21 @@ def closed_form(spec, xpos, xquat):
       n = (p2 - p1) / d if (d >= 0.02 and not par) else None
       # tolerance: mjx regularises its closest-point routines with 1e-6
       # terms (error ~ (5e-6)^2/d, and ~2e-6 when the centre lines touch)
-      rows.append((d - si[0] - sj[0], n, 1e-7 if d >= 1e-3 else 1e-5))
+      rows.append((d - si[0] - sj[0], n, max(loose, 1e-7 if d >= 1e-3
+                                             else 1e-5)))
     out[(i, j)] = rows
   return out
 
 
 def poses(spec, seed, tier):
   """List of (xpos [n,3], xquat [n,4]) link poses."""
-  rng = scope.rng_for(seed, 'c10poses', str([l['geoms'][0]['type']
-                                            for l in spec['links']]))
+  rng = scope.rng_for(seed, 'c10poses', str([
+      l.get('geoms_ref', l['geoms'])[0]['type'] for l in spec['links']]))
   rots = scope.cube_rotations() + [scope.generic_quat(rng)]
   if tier == 'quick':
     rots = rots[::3] + [rots[-1]]
   n = len(spec['links'])
-  r = [l['geoms'][-1]['size'][0] for l in spec['links']]
+  r = [l.get('geoms_ref', l['geoms'])[-1]['size'][0] for l in spec['links']]
   out = []
   dirs = [np.array([1.0, 0, 0]), scope.unit(rng.normal(size=3)),
           np.array([0, 0, 1.0])]
@@ -300,7 +329,8 @@ def check_scene(spec, seed, tier, res, tag):
 def tasks(tier, seed):
   ts = []
   for sc, multi in scenes(tier):
-    ts.append(dict(name='scene %s%s' % (sc, '+' if multi else ''), sc=sc,
+    ts.append(dict(name='scene %s%s' % (sc, {False: '', True: '+', 'fused':
+                                            '-fused'}[multi]), sc=sc,
                    multi=multi, cost=10 * len(sc) ** 2))
   return ts
 
